@@ -331,6 +331,7 @@ impl Sim {
         set_faketime(abs_now(self.now));
         self.incarnation += 1;
         self.net = NetShared::new();
+        self.net.install_p2p_control();
         let consensus = self.world.consensus.clone();
         match Client::boot(&self.dir, &consensus, &self.plan.knobs, Arc::clone(&self.net)) {
             Ok(c) => self.client = Some(c),
